@@ -599,6 +599,19 @@ func gen(r *vh.Rand) string {
 			perProd[j] = append(perProd[j], t)
 		}
 	}
+	// an ORPHAN tag: a key of Hosts that no product lists (must be rejected whatever the map order), next to valid ones
+	if r.Chance(1, 5) && ntag >= 2 {
+		o := tags[r.Intn(ntag)]
+		for i := range perProd {
+			var keep []string
+			for _, t := range perProd[i] {
+				if t != o {
+					keep = append(keep, t)
+				}
+			}
+			perProd[i] = keep
+		}
+	}
 	var hs, ts []string
 	for i, t := range tags {
 		hs = append(hs, jstr(t)+":"+jlist(perTag[i]))
